@@ -34,6 +34,13 @@ type Dict interface {
 	Dec(c *boc.Cell) (Dict, error)
 	// Build: a dictionary made by the library's constructor from key and value lists in the order given
 	Build(pairs [][2]string) (Dict, error)
+	// Cols: Keys() and Values() of the dictionary
+	Cols() (keys, vals []string, err error)
+	// JSON: json.Marshal of the dictionary (HashmapE.MarshalJSON)
+	JSON() ([]byte, error)
+	// Plain decodes the hashmap cell of an encoded HashmapE (its first reference; nil = empty) into a second, plain
+	// tlb.Hashmap and returns its Items(), Keys(), Values() and JSON form (Hashmap.MarshalJSON)
+	Plain(root *boc.Cell) (items [][2]string, keys, vals []string, js []byte, err error)
 }
 
 func cellFromBits(bits string) *boc.Cell {
@@ -125,6 +132,53 @@ func (d *gd[K]) Build(pairs [][2]string) (Dict, error) {
 	}
 	return &gd[K]{m: tlb.NewHashmapE(ks, vs)}, nil
 }
+func colStrings[K keyC](ks []K, vs []tlb.Uint32) (keys, vals []string, err error) {
+	keys, vals = []string{}, []string{}
+	for _, k := range ks {
+		s, e := bitsOf(k)
+		if e != nil {
+			return nil, nil, e
+		}
+		keys = append(keys, s)
+	}
+	for _, v := range vs {
+		s, e := bitsOf(v)
+		if e != nil {
+			return nil, nil, e
+		}
+		vals = append(vals, s)
+	}
+	return keys, vals, nil
+}
+func (d *gd[K]) Cols() ([]string, []string, error) { return colStrings(d.m.Keys(), d.m.Values()) }
+func (d *gd[K]) JSON() ([]byte, error)            { return json.Marshal(d.m) }
+func (d *gd[K]) Plain(root *boc.Cell) ([][2]string, []string, []string, []byte, error) {
+	var hm tlb.Hashmap[K, tlb.Uint32]
+	if root != nil {
+		root.ResetCounters()
+		if err := tlb.Unmarshal(root, &hm); err != nil {
+			return nil, nil, nil, nil, err
+		}
+	}
+	items := [][2]string{}
+	for _, it := range hm.Items() {
+		k, err := bitsOf(it.Key)
+		if err != nil {
+			return nil, nil, nil, nil, err
+		}
+		v, err := bitsOf(it.Value)
+		if err != nil {
+			return nil, nil, nil, nil, err
+		}
+		items = append(items, [2]string{k, v})
+	}
+	keys, vals, err := colStrings(hm.Keys(), hm.Values())
+	if err != nil {
+		return nil, nil, nil, nil, err
+	}
+	js, err := json.Marshal(hm)
+	return items, keys, vals, js, err
+}
 func (d *gd[K]) Dec(c *boc.Cell) (Dict, error) {
 	n := &gd[K]{}
 	c.ResetCounters()
@@ -177,12 +231,43 @@ func New(kind string, n int) Dict {
 		return &gd[tlb.Bits512]{}
 	case "a288":
 		return &gd[tlb.AddressWithWorkchain]{}
+	// a sample of the generated key types the library itself never instantiates a dictionary with (Go generics need
+	// static types; KeyOps covers the key operations of ALL of them by reflection)
+	case "u3":
+		return &gd[tlb.Uint3]{}
+	case "u7":
+		return &gd[tlb.Uint7]{}
+	case "u24":
+		return &gd[tlb.Uint24]{}
+	case "u33":
+		return &gd[tlb.Uint33]{}
+	case "u48":
+		return &gd[tlb.Uint48]{}
+	case "u63":
+		return &gd[tlb.Uint63]{}
+	case "i3":
+		return &gd[tlb.Int3]{}
+	case "i7":
+		return &gd[tlb.Int7]{}
+	case "i24":
+		return &gd[tlb.Int24]{}
+	case "i33":
+		return &gd[tlb.Int33]{}
+	case "i63":
+		return &gd[tlb.Int63]{}
+	case "b128":
+		return &gd[tlb.Bits128]{}
+	case "b320":
+		return &gd[tlb.Bits320]{}
+	case "b352":
+		return &gd[tlb.Bits352]{}
 	}
 	return nil
 }
 
 var AllTypes = [][2]any{{"u", 1}, {"u", 2}, {"u", 8}, {"u", 9}, {"u", 12}, {"u", 15}, {"u", 23}, {"i", 12}, {"u", 16}, {"u", 32}, {"u", 64},
-	{"i", 8}, {"i", 16}, {"i", 32}, {"i", 64}, {"b", 80}, {"b", 96}, {"b", 256}, {"b", 264}, {"b", 512}, {"a", 288}}
+	{"i", 8}, {"i", 16}, {"i", 32}, {"i", 64}, {"b", 80}, {"b", 96}, {"b", 256}, {"b", 264}, {"b", 512}, {"a", 288},
+	{"u", 3}, {"u", 7}, {"u", 24}, {"u", 33}, {"u", 48}, {"u", 63}, {"i", 3}, {"i", 7}, {"i", 24}, {"i", 33}, {"i", 63}, {"b", 128}, {"b", 320}, {"b", 352}}
 
 // rec records one dictionary's life as a Dict_Trace segment.
 type rec struct {
@@ -192,6 +277,7 @@ type rec struct {
 	n    int
 	last *boc.Cell
 	puts int
+	rng  *rand.Rand // label forms / filler fields of the shard states built for Balances
 }
 
 func safely(f func() error) (err error) {
@@ -327,6 +413,7 @@ func (r *rec) load(bocHex string) bool {
 			return e
 		}
 		r.d = nd
+		r.last = roots[0]
 		items, e = nd.Items()
 		return e
 	})
@@ -373,7 +460,7 @@ func Replay(in string, w *ev.Writer) error {
 	defer f.Close()
 	sc := bufio.NewScanner(f)
 	sc.Buffer(make([]byte, 1<<20), 1<<26)
-	r := &rec{w: w}
+	r := &rec{w: w, rng: rand.New(rand.NewSource(1))}
 	for sc.Scan() {
 		var v struct {
 			Vec   int         `json:"vec"`
@@ -404,6 +491,7 @@ func Replay(in string, w *ev.Writer) error {
 				mismatch(0, "load-items", items)
 				continue
 			}
+			r.observe(true)
 			for _, it := range v.Items {
 				r.get(it[0])
 			}
@@ -436,6 +524,9 @@ func Replay(in string, w *ev.Writer) error {
 						mismatch(i, "dec-items-order", items)
 						ok = false
 					}
+				}
+				if ok && i == len(v.Steps)-1 {
+					r.observe(true) // the dictionary decoded after the updates on a decoded dictionary
 				}
 			case "get", "getabsent":
 				ok = r.get(st.K)
@@ -722,7 +813,7 @@ type Opts struct {
 // decode / lookups / updates on the decoded dictionary, and the Orders events (same pairs, different orders).
 func Drive(w *ev.Writer, o Opts) {
 	rng := rand.New(rand.NewSource(o.Seed*2654435761 + int64(o.Shard)))
-	r := &rec{w: w}
+	r := &rec{w: w, rng: rand.New(rand.NewSource(o.Seed*31 + int64(o.Shard)))}
 	rounds := 2
 	maxN := 120
 	if o.Tier == "thorough" {
@@ -768,6 +859,7 @@ func Drive(w *ev.Writer, o Opts) {
 			if !r.enc() || !r.dec() {
 				continue
 			}
+			r.observe(true)
 			for i := 0; i < 5 && i < len(keys); i++ {
 				r.get(keys[rng.Intn(len(keys))])
 			}
@@ -788,8 +880,11 @@ func Drive(w *ev.Writer, o Opts) {
 					break
 				}
 			}
+			r.observe(false) // the dictionary in memory after updates (no longer in key-bit order for signed keys)
 			if r.enc() && r.enc() { // twice: the second encoding is of the dictionary the first one left in memory
-				r.dec()
+				if r.dec() {
+					r.observe(true)
+				}
 			}
 			orders(r, w, rng, kind, n, keys, pairs)
 			// clustered keys: equal in every whole byte (or in all but the last byte), different in the trailing bits
